@@ -34,7 +34,7 @@ pub fn scenarios(tier: Tier) -> Vec<Scenario> {
     let q = tier == Tier::Quick;
     let m = menu();
     let mut out = vec![];
-    for (name, k, nmenu, depth) in if q { vec![("k2-menu4", 2usize, 4usize, 8usize), ("k3-menu4", 3, 4, 7)] } else { vec![("k2-menu6", 2, 6, 10), ("k3-menu4", 3, 4, 11), ("k3-menu6", 3, 6, 9)] } {
+    for (name, k, nmenu, depth) in if q { vec![("k2-menu4", 2usize, 4usize, 8usize), ("k3-menu3", 3, 3, 9)] } else { vec![("k2-menu6", 2, 6, 10), ("k3-menu4", 3, 4, 11), ("k3-menu6", 3, 6, 9)] } {
         let mut alpha: Vec<Action> = vec![Action::OpenReader];
         for i in 0..k {
             alpha.push(Action::CloseReader(i));
